@@ -517,7 +517,11 @@ const _: () = {
         fn variant_seed<V>(self, seed: V) -> Result<(V::Value, Self::Variant), Self::Error>
         where V: serde::de::DeserializeSeed<'de> {
             Ok((
-                seed.deserialize(self.de.next_section()?.into_deserializer())?,
+                seed.deserialize(
+                    percent_decode_utf8(self.de.next_section()?)
+                        .map_err(|e| <super::Error as serde::de::Error>::custom(e))?
+                        .into_deserializer()
+                )?,
                 self,
             ))
         }
